@@ -85,6 +85,47 @@ def c07_jobs(tier):
     return jobs
 
 
+def c09_jobs(tier):
+    jobs = []
+    kinds = [(0, 1), (0, 8), (1, 2), (1, 8), (2, 4), (2, 8), (3, 1), (4, 1)] if tier == "quick" else \
+            [(0, 1), (0, 2), (0, 4), (0, 8), (1, 1), (1, 2), (1, 4), (1, 8), (2, 4), (2, 8), (3, 1), (4, 1)]
+    n = 2 if tier == "quick" else 3
+    for kind, w in kinds:
+        for vars_ in range(1 << n):
+            for fill in range(1 << n):
+                if fill & ~vars_:
+                    continue
+                jobs.append(J("ast", "ZZ_C09_leaf", kind=kind, w=w, n=n, vars=vars_, fill=fill))
+    for k in ([0, 1, 2] if tier == "quick" else [0, 1, 2, 3, 4]):
+        for lo, hi in ((0, -1), (1, 2), (2, 2), (0, 0), (3, -1)):
+            jobs.append(J("ast", "ZZ_C09_ascii", k=k, lo=lo, hi=hi))
+    for fill in range(32):
+        jobs.append(J("ast", "ZZ_C09_list", fill=fill))
+    for order in range(6):
+        jobs.append(J("ast", "ZZ_C09_message", order=order))
+    return jobs
+
+
+def c18_jobs(tier):
+    steps = [1, 2] if tier == "quick" else [1, 2, 3]
+    return [J("ast", "ZZ_C18_producers", w0=w, steps=s, timeout_s=(250 if tier == "quick" else 3000)) for w in (0, 1, 2) for s in steps]
+
+
+def c16_jobs(tier):
+    jobs = []
+    for order in (0, 1, 2):
+        jobs.append(J("ast", "ZZ_C16_leaf", order=order, maxn=(2 if tier == "quick" else 3)))
+        if tier == "quick":
+            jobs.append(J("ast", "ZZ_C16_tree", order=order, depth=1, width=2, maxn=1, kinds=1, timeout_s=250))
+            jobs.append(J("ast", "ZZ_C16_tree", order=order, depth=0, width=3, maxn=1, kinds=4, timeout_s=250))
+        else:
+            jobs.append(J("ast", "ZZ_C16_tree", order=order, depth=1, width=2, maxn=1, kinds=2, timeout_s=3000))
+            jobs.append(J("ast", "ZZ_C16_tree", order=order, depth=1, width=2, maxn=1, kinds=3, timeout_s=3000))
+            jobs.append(J("ast", "ZZ_C16_tree", order=order, depth=0, width=3, maxn=2, kinds=7, timeout_s=3000))
+            jobs.append(J("ast", "ZZ_C16_tree", order=order, depth=2, width=2, maxn=1, kinds=1, timeout_s=3000))
+    return jobs
+
+
 def c12_jobs(tier):
     jobs = []
     for w in (1, 2, 4, 8, 0, 3):
@@ -121,6 +162,21 @@ def c13_jobs(tier):
 
 
 PROPS = {
+    "C16": dict(jobs=c16_jobs,
+                level_text="Bounded exhaustive symbolic exploration of tree shapes (every choice of kinds, variable positions, ellipsis positions is a decision explored by the engine) under three map iteration orders; Variables() is compared with the construction order and with the names tokenised from String().",
+                level_note="Structural property: the solver decides feasibility of shape choices only; exhaustiveness is over shapes and iteration orders within the bound. Trusted: go/ssa, engine, harness tokenizer.",
+                bounds={"quick": "leaves n<=2; lists depth 1 width<=2", "thorough": "width<=3 or depth 2"},
+                outside=["NewListNode(NewEmptyItemNode()) (undefined template)", "constants other than the fixed menu (their independence is C09)"]),
+    "C18": dict(jobs=c18_jobs,
+                level_text="Bounded model checking of short producer sequences: every accessor, Header, String and ToBytes are compared after every call with a field record maintained by the harness from the documented effect of each producer; arguments symbolic and unconstrained (rejected ones included).",
+                level_note="Trusted: go/ssa, engine, z3. The item-tree effect of FillVariables is taken from ItemNode.FillVariables (decided by C09).",
+                bounds={"quick": "<=2 producer calls", "thorough": "<=3 producer calls"},
+                outside=["longer sequences", "message names beyond the two-entry menu (C12 covers names)"]),
+    "C09": dict(jobs=c09_jobs,
+                level_text="Bounded model checking: templates of every node kind with all variable/fill/split subsets enumerated within the bound; constants and fill-in values symbolic and unconstrained, so the refusal clause is decided for all values; oracle = the directly constructed node.",
+                level_note="Trusted: go/ssa, engine (map iteration in insertion order; order dependence is examined in C16/C17), z3.",
+                bounds={"quick": "leaf templates n=2 slots; nested list template with 5 variables; ASCII k<=2", "thorough": "n=3; all widths; k<=4"},
+                outside=["fill values that themselves contain variables", "templates with ellipses (C10)"]),
     "C12": dict(jobs=c12_jobs,
                 level_text="Bounded model checking: one harness per factory and accepted Go argument type with the argument fully symbolic (all 2^64 values per query), oracle = mathematical range test; names as k arbitrary bytes against a hand-written automaton of the documented grammar.",
                 level_note="Trusted: go/ssa, engine (regexp simulation over the real regexp/syntax program), z3 incl. FP theory.",
